@@ -386,6 +386,7 @@ class CommitGraph:
 
         # Build commit data chunk
         commit_data = b""
+        extra_edge_data = b""
         # Create OID to index mapping for parent lookups
         oid_to_index = {entry.commit_id: i for i, entry in enumerate(sorted_entries)}
 
@@ -404,10 +405,15 @@ class CommitGraph:
                 parent1_pos = oid_to_index.get(entry.parents[0], GRAPH_PARENT_MISSING)
                 parent2_pos = oid_to_index.get(entry.parents[1], GRAPH_PARENT_MISSING)
             else:
-                # More than 2 parents - would need extra edge list chunk
-                # For now, just store first two parents
+                # More than 2 parents: the second slot points into the extra
+                # edge list, which holds parents 2..n (the last one flagged).
                 parent1_pos = oid_to_index.get(entry.parents[0], GRAPH_PARENT_MISSING)
-                parent2_pos = oid_to_index.get(entry.parents[1], GRAPH_PARENT_MISSING)
+                parent2_pos = GRAPH_EXTRA_EDGES_NEEDED | (len(extra_edge_data) // 4)
+                for j, parent in enumerate(entry.parents[1:]):
+                    edge_pos = oid_to_index.get(parent, GRAPH_PARENT_MISSING)
+                    if j == len(entry.parents) - 2:
+                        edge_pos |= GRAPH_LAST_EDGE
+                    extra_edge_data += struct.pack(">L", edge_pos)
 
             commit_data += struct.pack(">LL", parent1_pos, parent2_pos)
 
@@ -435,30 +441,36 @@ class CommitGraph:
         header_size = (
             8  # signature + version + hash_version + num_chunks + base_graph_count
         )
-        toc_size = 4 * 12  # 4 entries (3 chunks + terminator) * 12 bytes each
+        # 3 chunks, plus the extra edge list when some commit has 3+ parents
+        num_chunks = 4 if extra_edge_data else 3
+        toc_size = (num_chunks + 1) * 12  # chunks + terminator, 12 bytes each
 
         chunk1_offset = header_size + toc_size  # OID Fanout
         chunk2_offset = chunk1_offset + len(fanout_data)  # OID Lookup
         chunk3_offset = chunk2_offset + len(oid_lookup_data)  # Commit Data
-        terminator_offset = chunk3_offset + len(commit_data)
+        chunk4_offset = chunk3_offset + len(commit_data)  # Extra Edge List
+        terminator_offset = chunk4_offset + len(extra_edge_data)
 
         # Write header
         f.write(COMMIT_GRAPH_SIGNATURE)
         f.write(struct.pack(">B", COMMIT_GRAPH_VERSION))
         f.write(struct.pack(">B", self.hash_version))
-        f.write(struct.pack(">B", 3))  # 3 chunks
+        f.write(struct.pack(">B", num_chunks))
         f.write(struct.pack(">B", 0))  # 0 base graphs
 
         # Write table of contents
         f.write(CHUNK_OID_FANOUT + struct.pack(">Q", chunk1_offset))
         f.write(CHUNK_OID_LOOKUP + struct.pack(">Q", chunk2_offset))
         f.write(CHUNK_COMMIT_DATA + struct.pack(">Q", chunk3_offset))
+        if extra_edge_data:
+            f.write(CHUNK_EXTRA_EDGE_LIST + struct.pack(">Q", chunk4_offset))
         f.write(b"\x00\x00\x00\x00" + struct.pack(">Q", terminator_offset))
 
         # Write chunks
         f.write(fanout_data)
         f.write(oid_lookup_data)
         f.write(commit_data)
+        f.write(extra_edge_data)
 
     def __len__(self) -> int:
         """Return number of commits in the graph."""
